@@ -42,7 +42,10 @@ def main():
     snap_calls = {}
 
     def keyj(k):
-        return json.dumps([k[0], bool(k[1]), [list(e) for e in k[2]]])
+        try:
+            return json.dumps([k[0], bool(k[1]), [list(e) for e in k[2]]])
+        except Exception:  # a cache key of another shape: still report something comparable
+            return json.dumps([0, False, [[repr(k)]]])
 
     # ---- wrappers ----
     orig_parse = fj_parser.FJParser.parse
